@@ -10,7 +10,10 @@ variants) over 1-4 messages, faults are enumerated exhaustively:
      copy / move / delete / update / get, rw-lock acquisitions) for every n;
   f4 (maildir) OSError(EIO) from the n-th mutating filesystem operation;
   f5 (maildir) process kill before the n-th filesystem operation (crash
-     image + restart).
+     image + restart);
+  f6 (maildir) another process takes the UID-list lock files at the n-th
+     filesystem operation, the command waits for them (a real suspension
+     point) and is cancelled / disconnected there.
 Oracle, from dumps of source and destination after the fault: every message
 that existed before is still in the source or the destination; after an
 OK-completed MOVE in exactly one of them; a multi-message APPEND that did not
@@ -19,6 +22,7 @@ both mailboxes unchanged; the server still serves.
 """
 from __future__ import annotations
 
+import os
 import re
 from typing import Any
 
@@ -258,6 +262,7 @@ def run_case(case: dict[str, Any]) -> CaseOut:
         if w.h is not None:
             w.h.mon.enabled = True
             m0 = w.h.mon.faultable
+            mm0 = w.h.mon.mutations
         counter['armed'] = True
         w.c.feed(data)
         iters = 0
@@ -269,6 +274,7 @@ def run_case(case: dict[str, Any]) -> CaseOut:
         counter['armed'] = False
         n_calls = counter['n']
         n_fs = (w.h.mon.faultable - m0) if w.h is not None else 0
+        n_fs_all = (w.h.mon.mutations - mm0) if w.h is not None else 0
         resp = w.c.take()
         _judge(w.before, w.dumps(), resp, new, case, out, 'no fault')
         w.close()
@@ -339,6 +345,59 @@ def run_case(case: dict[str, Any]) -> CaseOut:
                            f'OSError from filesystem operation {nth}/{n_fs}')
                 finally:
                     w.close()
+            # ---- f6: another process holds the UID-list lock from the n-th
+            #      filesystem operation on; the command waits for it (a real
+            #      suspension point) and the connection is cancelled / dropped
+            #      there; then the other process releases the lock ---------
+            for nth in range(1, n_fs_all + 1):
+                if stop():
+                    break
+                for how in ('cancel', 'eof'):
+                    w = fresh()
+                    try:
+                        assert w.h is not None
+                        base = w.h.base
+                        locks = [os.path.join(base, 'alice',
+                                              'dovecot-uidlist.lock'),
+                                 os.path.join(base, 'alice', '.Other',
+                                              'dovecot-uidlist.lock')]
+                        held: list[str] = []
+
+                        def grab(n: int, op: str, path: str,
+                                 _start: int = w.h.mon.mutations,
+                                 _nth: int = nth) -> None:
+                            if n - _start == _nth and not held:
+                                for lk in locks:
+                                    if not os.path.exists(lk):
+                                        fsmon.real_open(lk, 'x').close()
+                                        held.append(lk)
+                        w.h.mon.on_mutation = grab
+                        w.h.mon.enabled = True
+                        w.c.feed(data)
+                        w.sim.settle(advance=0.0)
+                        blocked = not w.c.writer.buf and bool(held)
+                        if blocked:
+                            if how == 'cancel':
+                                w.c.task.cancel()
+                            else:
+                                w.c.eof()
+                                w.c.task.cancel()
+                        for lk in held:
+                            if os.path.exists(lk):
+                                os.unlink(lk)
+                        w.sim.settle(advance=12.0)
+                        w.h.mon.enabled = False
+                        w.h.mon.on_mutation = None
+                        resp = w.c.take()
+                        if blocked:
+                            inside += 1
+                            pos_count['f6'] = pos_count.get('f6', 0) + 1
+                            _judge(w.before, w.dumps(), resp, new, case, out,
+                                   f'{how} while waiting for a UID-list lock '
+                                   f'taken by another process at filesystem '
+                                   f'operation {nth}/{n_fs_all}')
+                    finally:
+                        w.close()
             # ---- f5: kill before the n-th filesystem operation ------------
             if not stop():
                 w = fresh(snapshots=True)
